@@ -79,6 +79,13 @@ Qed.
 (* ---- loss reporting (C12) ---- *)
 Definition is_serr (i : item) := match i with IStreamError _ => true | _ => false end.
 
+Lemma last_last_app {A} (l1 l2 : list A) d : l2 <> [] -> last (l1 ++ l2) d = last l2 d.
+Proof.
+  intros H. induction l1 as [|a l1 IH]; [reflexivity|]. cbn [app].
+  destruct (l1 ++ l2) as [|b r] eqn:E; [destruct l1; [contradiction|discriminate]|].
+  change (last (a :: b :: r) d) with (last (b :: r) d). exact IH.
+Qed.
+
 Lemma cs_nil : count_stanzas [] = 0.
 Proof. reflexivity. Qed.
 
@@ -88,67 +95,67 @@ Lemma crecv_loss items : forall inb nw wf,
   let closed := ends_by_close nw wf items in
   count_act is_quit tr = 1%nat /\
   last tr AErrCall = AQuit /\
-  count_act is_disc tr = (if closed then 0 else 1)%nat /\
+  count_act is_disc tr = 1%nat /\
   count_act is_err tr = ((if closed then 0 else 1) + length (filter is_serr p))%nat /\
-  (closed = false -> In (AEvDisconnected (inb + count_stanzas p)) tr).
+  In (AEvDisconnected (inb + count_stanzas p)) tr.
 Proof.
   induction items as [|i items IH]; intros inb nw wf.
-  - cbn -[N.add]. repeat split; try reflexivity. intros _. right; left. f_equal. lia.
+  - cbn -[N.add]. repeat split; try reflexivity. right; left. f_equal. lia.
   - unfold ends_by_close.
-    destruct i; cbn [crecv processed].
-    + (* stanza *)
-      specialize (IH (inb + 1) nw wf). cbn zeta in IH. unfold ends_by_close in IH.
-      cbn [length skipn]. destruct IH as (Hq & Hl & Hd & He & Hin).
+    assert (Hstep : forall inb' nw' (pre : list action) (it : item),
+              (forall a, In a pre -> is_quit a = false /\ is_disc a = false) ->
+              processed nw wf (i :: items) = it :: processed nw' wf items ->
+              inb' + count_stanzas (processed nw' wf items) = inb + count_stanzas (it :: processed nw' wf items) ->
+              crecv inb nw wf (i :: items) = pre ++ crecv inb' nw' wf items ->
+              count_act is_err pre = (if is_serr it then 1 else 0)%nat ->
+              let tr := crecv inb nw wf (i :: items) in
+              let p := processed nw wf (i :: items) in
+              count_act is_quit tr = 1%nat /\ last tr AErrCall = AQuit /\ count_act is_disc tr = 1%nat /\
+              count_act is_err tr =
+                ((if match skipn (length p) (i :: items) with IClose :: _ => true | _ => false end then 0 else 1)
+                 + length (filter is_serr p))%nat /\
+              In (AEvDisconnected (inb + count_stanzas p)) tr).
+    { intros inb' nw' pre it Hpre Hp Hcnt Htr Herr. cbn zeta. rewrite Htr, Hp.
+      specialize (IH inb' nw' wf). cbn zeta in IH. unfold ends_by_close in IH.
+      destruct IH as (Hq & Hl & Hd & He & Hin).
+      assert (Hcq : count_act is_quit pre = 0%nat /\ count_act is_disc pre = 0%nat).
+      { clear -Hpre. unfold count_act. induction pre as [|a pre IHp]; [split; reflexivity|].
+        destruct (Hpre a (or_introl eq_refl)) as [H1 H2]. cbn [filter]. rewrite H1, H2.
+        apply IHp. intros b Hb. apply Hpre. right. exact Hb. }
+      destruct Hcq as [Hcq Hcd].
+      unfold count_act in *. rewrite !filter_app, !app_length.
       repeat split.
-      * exact Hq.
-      * cbn [last]. destruct (crecv (inb + 1) nw wf items) eqn:E; [cbn in Hq; discriminate|exact Hl].
-      * exact Hd.
-      * cbn [filter is_serr]. exact He.
-      * intros Hc. right. specialize (Hin Hc).
-        replace (inb + count_stanzas (IStanza k id :: processed nw wf items))
-          with (inb + 1 + count_stanzas (processed nw wf items)); [exact Hin|].
-        unfold count_stanzas. cbn [filter is_stanza length]. lia.
+      - rewrite Hcq. exact Hq.
+      - destruct (crecv inb' nw' wf items) as [|a0 l0] eqn:E; [cbn in Hq; discriminate|].
+        rewrite last_last_app; [exact Hl|discriminate].
+      - rewrite Hcd. exact Hd.
+      - cbn [length skipn filter]. rewrite He, Herr. destruct (is_serr it); cbn [length]; lia.
+      - apply in_or_app. right. rewrite <- Hcnt. exact Hin. }
+    destruct i.
+    + (* stanza *)
+      apply (Hstep (inb + 1) nw [ARouteAsync (IStanza k id)] (IStanza k id)); try reflexivity.
+      * intros a [<-|[]]; split; reflexivity.
+      * unfold count_stanzas. cbn [filter is_stanza length]. lia.
     + (* r *)
       destruct (match wf with Some k => Nat.eqb k (S nw) | None => false end) eqn:Ew.
-      * cbn -[N.add]. repeat split; try reflexivity. intros _. right; right; left. f_equal. lia.
-      * specialize (IH inb (S nw) wf). cbn zeta in IH. unfold ends_by_close in IH.
-        cbn [length skipn]. destruct IH as (Hq & Hl & Hd & He & Hin).
-        repeat split.
-        -- exact Hq.
-        -- cbn [last]. destruct (crecv inb (S nw) wf items) eqn:E; [cbn in Hq; discriminate|].
-           cbn [last] in *. exact Hl.
-        -- exact Hd.
-        -- cbn [filter is_serr]. exact He.
-        -- intros Hc. right; right. specialize (Hin Hc).
-           unfold count_stanzas in *. cbn [filter is_stanza]. exact Hin.
+      * cbn [crecv processed]. rewrite Ew. cbn -[N.add]. repeat split; try reflexivity. right; right; left. f_equal. lia.
+      * apply (Hstep inb (S nw) [AWrite inb; ARouteAsync ISmR] ISmR); try reflexivity.
+        -- intros a [<-|[<-|[]]]; split; reflexivity.
+        -- cbn [processed]. rewrite Ew. reflexivity.
+        -- cbn [crecv]. rewrite Ew. reflexivity.
     + (* a *)
-      specialize (IH inb nw wf). cbn zeta in IH. unfold ends_by_close in IH.
-      cbn [length skipn]. destruct IH as (Hq & Hl & Hd & He & Hin).
-      repeat split; try assumption.
-      * cbn [last]. destruct (crecv inb nw wf items) eqn:E; [cbn in Hq; discriminate|exact Hl].
-      * intros Hc. right. specialize (Hin Hc). unfold count_stanzas in *.
-        cbn [filter is_stanza]. exact Hin.
+      apply (Hstep inb nw [ARouteAsync (ISmA h)] (ISmA h)); try reflexivity.
+      intros a [<-|[]]; split; reflexivity.
     + (* other nonza *)
-      specialize (IH inb nw wf). cbn zeta in IH. unfold ends_by_close in IH.
-      cbn [length skipn]. destruct IH as (Hq & Hl & Hd & He & Hin).
-      repeat split; try assumption.
-      * cbn [last]. destruct (crecv inb nw wf items) eqn:E; [cbn in Hq; discriminate|exact Hl].
-      * intros Hc. right. specialize (Hin Hc). unfold count_stanzas in *.
-        cbn [filter is_stanza]. exact Hin.
+      apply (Hstep inb nw [ARouteAsync (INonza tag)] (INonza tag)); try reflexivity.
+      intros a [<-|[]]; split; reflexivity.
     + (* stream error *)
-      specialize (IH inb nw wf). cbn zeta in IH. unfold ends_by_close in IH.
-      cbn [length skipn]. destruct IH as (Hq & Hl & Hd & He & Hin).
-      repeat split.
-      * exact Hq.
-      * cbn [last]. destruct (crecv inb nw wf items) eqn:E; [cbn in Hq; discriminate|exact Hl].
-      * exact Hd.
-      * cbn [filter is_serr length]. unfold count_act in *. cbn [filter is_err length]. lia.
-      * intros Hc. do 5 right. specialize (Hin Hc). unfold count_stanzas in *.
-        cbn [filter is_stanza]. exact Hin.
+      apply (Hstep inb nw [ARouteSync (IStreamError tag); AEvStreamError; AErrCall; ADisconnectCall; ARouteAsync (IStreamError tag)] (IStreamError tag)); try reflexivity.
+      intros a [<-|[<-|[<-|[<-|[<-|[]]]]]]; split; reflexivity.
     + (* close *)
-      cbn. repeat split; try reflexivity. intros H; discriminate.
+      cbn -[N.add]. repeat split; try reflexivity. right; left. f_equal. lia.
     + (* bad *)
-      cbn -[N.add]. repeat split; try reflexivity. intros _. right; left. f_equal. lia.
+      cbn -[N.add]. repeat split; try reflexivity. right; left. f_equal. lia.
 Qed.
 
 (* ---- component ---- *)
